@@ -109,6 +109,47 @@ def run(tier, seed):
     # names: node-mode results are expressed in the caller's node names (C01 clauses on the node graph)
     P.validate(node_recs, PROP, res, clause_prop="C11")
     vlib.validate_groups([dict(r) for r in recs], PROP, res)
+    # MinErrorFlow accepts flow_attr_origin='node' too: node-weighted (non-conserving) instances, with a zero-scaled / half-scaled /
+    # ignored / attribute-less node, paired with the expansion in the same way
+    mef = []
+    dag = vlib.universe("dag", 4, k=3, w=3, cap=12)
+    cyc4 = vlib.universe("cyc", 4, maxe=6, k=2, w=2, l=1, cap=4)
+    for u in C.spread(dag, 12 if tier == "quick" else 80) + C.spread(cyc4, 8 if tier == "quick" else 60):
+        for _ in range(2):
+            r = C.base(u, "MinErrorFlow", "node")
+            r["wt"] = "int"
+            v = rng.choice(u["nodes"])
+            r["nw"] = list(r["nw"])
+            r["nw"][u["nodes"].index(v)] += rng.choice([2, 3, 5])
+            feat = rng.choice([{}, {"escale": [[v, 0, 1]]}, {"escale": [[v, 0, 1]]}, {"escale": [[v, 1, 2]]}, {"ign": [v]}, {"drop": v}])
+            if "drop" in feat:
+                r["nw"][u["nodes"].index(v)] = vlib.NONE
+            else:
+                r.update(feat)
+            mef.append(r)
+    for i, r in enumerate(mef):
+        r["id"] = 2 * 10 ** 6 + 2 * i
+        r["grp"] = 2 * 10 ** 6 + i
+    mexp = expand_with_tlc(mef, res)
+    twins = []
+    for r in mef:
+        x = mexp[r["id"]]
+        tw = {"cls": "MinErrorFlow", "grp": r["grp"], "id": r["id"] + 1, "mode": "edge", "wt": "int", "nodes": x["nodes"],
+              "edges": [list(t) for t in x["edges"]], "ew": x["ew"], "ign": [list(t) for t in x["ign"]], "is_expansion": True}
+        if x.get("escale"):
+            tw["escale"] = [[list(t[0]), t[1], t[2]] for t in x["escale"]]
+        twins.append(tw)
+    mrecs = P.drive(mef + twins)
+    for r in mrecs:
+        # r["obj"] is what get_objective_value() answered (for this class: the reported error); the objective_value entry of the
+        # solution is compared by C16
+        r["cmp"] = [1, 1]
+        if r["solved"] and not r.get("is_expansion"):
+            res.count_class("solved_MinErrorFlow_node_mode")
+            if any(t[1] == 0 for t in r.get("escale", [])):
+                res.count_class("solved_MinErrorFlow_zero_scaled_node")
+    vlib.validate_groups([dict(r) for r in mrecs], PROP, res)
+    res.evaluations += len(mrecs)
     # the expansion class itself
     sub = []
     sid = 10 ** 6
@@ -144,7 +185,8 @@ def run(tier, seed):
                 "attribute, starts, ends, node constraint, error scaling}; each paired with the explicit expansion computed by "
                 "Gen_Expand.tla; Trace_Groups requires equal solved status and objective; NodeExpandedDiGraph validated against "
                 "Graphs!Expand by Trace_NodeExp")
-    return res.finish(known, require_classes=["solved_node_mode", "node_without_attribute", "single_node_graph"])
+    return res.finish(known, require_classes=["solved_node_mode", "node_without_attribute", "single_node_graph", "solved_MinErrorFlow_node_mode",
+                                              "solved_MinErrorFlow_zero_scaled_node"])
 
 
 def replay(path, seed):
